@@ -92,7 +92,8 @@ def gen_cell(rng, fmt):
         al = rng.uniform(50.0, 110.0)
         return [a, a, a, al, al, al]
     if kind == "big":
-        return [rng.uniform(100.0, 5000.0), rng.uniform(10.0, 900.0), rng.uniform(1000.0, 9000.0), 90.0,
+        # every printed width of %9.3f / %9.6f cell lengths, up to the CRYST1 column limits
+        return [10.0 ** rng.uniform(2.0, 3.99), 10.0 ** rng.uniform(1.0, 4.99), 10.0 ** rng.uniform(3.0, 4.99), 90.0,
                 rng.uniform(80.0, 100.0), 90.0]
     if kind == "small":
         return [rng.uniform(0.3, 1.5), rng.uniform(0.3, 1.5), rng.uniform(0.3, 1.5), 90.0, 90.0, rng.uniform(60, 120)]
@@ -158,7 +159,18 @@ def gen_spec(rng, fmt, natoms=None):
     for _ in range(natoms):
         xyz = [gen_coord(rng, fmt, scale) for _ in range(3)]
         if fmt == "pdb":
-            xyz = [max(-90.0 / scale, min(900.0 / scale, v)) for v in xyz]
+            # Cartesian coordinates over the whole column range (x: 8 columns, y, z: 7), then fractional
+            from diffpy.structure import Lattice
+
+            def cart(lo, hi):
+                r = rng.random()
+                if r < 0.5:
+                    return rng.uniform(-20.0, 60.0)
+                if r < 0.8:
+                    return rng.uniform(lo, hi)
+                return rng.choice([lo + 0.0006, hi - 0.0006, _boundary(rng, 3, 2)])
+            rc = [cart(-999.999, 9999.999), cart(-99.999, 999.999), cart(-99.999, 999.999)]
+            xyz = [float(v) for v in Lattice(*cell).fractional(rc)]
         occ = rng.choice([1.0, 1.0, 1.0, 0.5, rng.random(), 0.0, _boundary(rng, rng.choice([2, 4]), 0) % 1.0])
         a = {"el": "" if raw_noel else rng.choice(els), "xyz": [hx(v) for v in xyz], "occ": hx(occ),
              "adp": gen_adp(rng, cell)}
@@ -167,6 +179,15 @@ def gen_spec(rng, fmt, natoms=None):
         atoms.append(a)
     title = rng.choice(TITLES)
     spec = {"cls": "Structure", "title": title, "cell": [hx(v) for v in cell], "atoms": atoms}
+    if fmt == "xcfg":
+        if rng.random() < 0.3:
+            for a in atoms:
+                a["v"] = [hx(_magnitude(rng, -3, 2)) for _ in range(3)]
+        if rng.random() < 0.3:
+            names = rng.choice([["charge"], ["energy", "charge"], ["Uiso", "spin"], ["occupancy", "charge", "U11"]])
+            spec["xcfg_aux"] = names
+            for a in atoms:
+                a["aux"] = {n: hx(_magnitude(rng, -4, 3)) for n in names if not xcfg_derived(n)}
     if fmt in ("pdffit", "discus") and rng.random() < 0.5:
         spec["cls"] = "PDFFitStructure"
         pf = {}
@@ -189,6 +210,13 @@ def gen_spec(rng, fmt, natoms=None):
     return spec
 
 
+def xcfg_derived(prop):
+    """Auxiliary names that the XCFG writer derives itself (occupancy, Uiso, Biso, Uij, Bij)."""
+    if prop in ("occupancy", "Uiso", "Biso"):
+        return True
+    return len(prop) == 3 and prop[0] in "BU" and all(d in "123" for d in prop[1:])
+
+
 def build(spec):
     from diffpy.structure import Lattice, PDFFitStructure, Structure
 
@@ -201,6 +229,12 @@ def build(spec):
         at = s[-1]
         if a.get("label"):
             at.label = a["label"]
+        if a.get("v"):
+            import numpy
+
+            at.v = numpy.array([fx(v) for v in a["v"]])
+        for n, v in (a.get("aux") or {}).items():
+            setattr(at, n, fx(v))
         adp = a["adp"]
         if adp[0] == "iso":
             at.Uisoequiv = fx(adp[1])
@@ -211,6 +245,8 @@ def build(spec):
             u = [fx(v) for v in adp[1]]
             at.anisotropy = True
             at.U = [[u[0], u[3], u[4]], [u[3], u[1], u[5]], [u[4], u[5], u[2]]]
+    if spec.get("xcfg_aux"):
+        s.xcfg = {"auxiliaries": list(spec["xcfg_aux"])}
     return s
 
 
@@ -610,6 +646,10 @@ def in_range(fmt, s):
             return "cell length wider than the CRYST1 columns"
         if len(s) > 99998:
             return "serial number wider than 5 columns"
+    if fmt == "cif":
+        for e in els:
+            if not re.fullmatch(r"[a-zA-Z]+(\d[+-])?", e):
+                return "element %r is not of the form letters[digit sign]" % e
     if fmt == "xcfg" and len(s) == 0:
         return "XCFG cannot hold an empty structure (the writer says so)"
     return None
@@ -628,7 +668,9 @@ def known_defect(fmt, s):
 # model side: documents shipped to the Lean driver
 # ------------------------------------------------------------------------------------------
 
-MODEL_FORMATS = ["xyz", "rawxyz", "discus", "pdffit", "pdb"]
+MODEL_FORMATS = ["xyz", "rawxyz", "discus", "pdffit", "pdb", "xcfg", "cif"]
+# formats whose range has a clause that only the model evaluates (XCFG: no reduced coordinate prints as 1)
+LEAN_RANGE_ONLY = {"xcfg"}
 
 
 def enc(t):
@@ -735,7 +777,143 @@ def doc_fields(fmt, s, read_side=False):
     return f
 
 
+def xcfg_doc_words(s):
+    import numpy
+    from diffpy.structure.parsers.p_xcfg import AtomicMass
+
+    w = [frac(v) for v in numpy.ravel(s.lattice.base)]
+    w.append("true" if numpy.allclose(s.lattice.abcABG(), (1, 1, 1, 90, 90, 90)) else "false")
+    stored = list(getattr(s, "xcfg", None)["auxiliaries"]) if getattr(s, "xcfg", None) else []
+    w.append(str(len(stored)))
+    w += [enc(n) for n in stored]
+    w.append(str(len(s)))
+    keep = [n for n in stored if not xcfg_derived(n)]
+    for a in s:
+        w += [enc(a.element), frac(AtomicMass.get(a.element, 0.0))] + _v3(a.xyz) + [frac(a.occupancy)]
+        w += [frac(v) for v in numpy.ravel(a.U)]
+        if "v" in a.__dict__:
+            w += ["some"] + _v3(a.v)
+        else:
+            w.append("none")
+        w.append(str(len(keep)))
+        w += [frac(getattr(a, n)) for n in keep]
+    return w
+
+
+def xcfg_real_doc(s):
+    """What the reader reconstructed: (name, value) pairs comparable with the model's reading."""
+    import numpy
+
+    res = [("natoms", len(s))]
+    for k, v in enumerate(numpy.ravel(s.lattice.base)):
+        res.append(("base%d" % k, float(v)))
+    names = list(getattr(s, "xcfg", None)["auxiliaries"]) if getattr(s, "xcfg", None) else []
+    for i, a in enumerate(s):
+        res.append(("atom%d.element" % i, a.element))
+        for k in range(3):
+            res.append(("atom%d.xyz%d" % (i, k), float(a.xyz[k])))
+        if "v" in a.__dict__:
+            for k in range(3):
+                res.append(("atom%d.v%d" % (i, k), float(a.v[k])))
+        for n in names:
+            if n == "Uiso":
+                v = a.Uisoequiv
+            elif n == "Biso":
+                v = a.Bisoequiv
+            elif n == "occupancy":
+                v = a.occupancy
+            else:
+                v = getattr(a, n)
+            res.append(("atom%d.aux.%s" % (i, n), float(v)))
+    return res
+
+
+def xcfg_parse_model(out):
+    if not out.startswith("ok"):
+        return out
+    it = iter(out.split(" ")[1:])
+    res = [("natoms", int(next(it)))]
+    next(it)          # the length unit A: the reader does not keep it
+    for k in range(9):
+        res.append(("base%d" % k, Fraction(next(it))))
+    n = int(next(it))
+    for i in range(n):
+        res.append(("atom%d.element" % i, dec(next(it))))
+        for k in range(3):
+            res.append(("atom%d.xyz%d" % (i, k), Fraction(next(it))))
+        if next(it) == "some":
+            for k in range(3):
+                res.append(("atom%d.v%d" % (i, k), Fraction(next(it))))
+        na = int(next(it))
+        for _ in range(na):
+            nm = dec(next(it))
+            res.append(("atom%d.aux.%s" % (i, nm), Fraction(next(it))))
+    return res
+
+
+def cif_doc_words(s):
+    import numpy
+
+    lat = s.lattice
+    w = [enc(s.title)] + [frac(v) for v in (lat.a, lat.b, lat.c, lat.alpha, lat.beta, lat.gamma)]
+    w.append(str(len(s)))
+    for a in s:
+        w += [enc(a.element)] + _v3(a.xyz) + [frac(a.Uisoequiv), frac(a.occupancy)] + [frac(v) for v in numpy.ravel(a.U)]
+    return w
+
+
+def cif_real_doc(s):
+    res = []
+    lat = s.lattice
+    for k, v in enumerate((lat.a, lat.b, lat.c, lat.alpha, lat.beta, lat.gamma)):
+        res.append(("cell%d" % k, float(v)))
+    res.append(("natoms", len(s)))
+    for i, a in enumerate(s):
+        res.append(("atom%d.label" % i, a.label))
+        res.append(("atom%d.element" % i, a.element))
+        for k in range(3):
+            res.append(("atom%d.xyz%d" % (i, k), float(a.xyz[k])))
+        res.append(("atom%d.aniso" % i, "true" if a.anisotropy else "false"))
+        res.append(("atom%d.occupancy" % i, float(a.occupancy)))
+        if a.anisotropy:
+            for k, v in enumerate(u6(a)):
+                res.append(("atom%d.U%d" % (i, k), v))
+        else:
+            res.append(("atom%d.Uiso" % i, float(a.Uisoequiv)))
+    return res
+
+
+def cif_parse_model(out):
+    if not out.startswith("ok"):
+        return out
+    it = iter(out.split(" ")[1:])
+    res = [("cell%d" % k, Fraction(next(it))) for k in range(6)]
+    n = int(next(it))
+    res.append(("natoms", n))
+    for i in range(n):
+        res.append(("atom%d.label" % i, dec(next(it))))
+        res.append(("atom%d.element" % i, dec(next(it))))
+        for k in range(3):
+            res.append(("atom%d.xyz%d" % (i, k), Fraction(next(it))))
+        uiso = Fraction(next(it))
+        flag = next(it)
+        res.append(("atom%d.aniso" % i, flag))
+        res.append(("atom%d.occupancy" % i, Fraction(next(it))))
+        o = next(it)
+        us = [Fraction(next(it)) for _ in range(6)] if o == "some" else None
+        if flag == "true":
+            for k in range(6):
+                res.append(("atom%d.U%d" % (i, k), us[k] if us else Fraction(0)))
+        else:
+            res.append(("atom%d.Uiso" % i, uiso))
+    return res
+
+
 def doc_words(fmt, s):
+    if fmt == "xcfg":
+        return xcfg_doc_words(s)
+    if fmt == "cif":
+        return cif_doc_words(s)
     w = []
     for n, v in doc_fields(fmt, s):
         if n == "natoms":
@@ -755,6 +933,10 @@ def doc_words(fmt, s):
 def parse_model_doc(fmt, out, template):
     """Decode a document printed by the driver against the field names of `template` (a
     doc_fields list of a structure with the same number of atoms): list of (name, value)."""
+    if fmt == "xcfg":
+        return xcfg_parse_model(out)
+    if fmt == "cif":
+        return cif_parse_model(out)
     if not out.startswith("ok"):
         return out
     ws = out.split(" ")[1:]
@@ -828,6 +1010,10 @@ PER_ATOM = {
 
 def real_doc(fmt, s):
     """The same document read off a real (re-read) structure."""
+    if fmt == "xcfg":
+        return xcfg_real_doc(s)
+    if fmt == "cif":
+        return cif_real_doc(s)
     return doc_fields(fmt, s, read_side=True)
 
 
@@ -882,6 +1068,12 @@ def diff_docs(fmt, model_doc, real, stru=None, reltol=1e-12):
                 return "%s: model %r, real %r" % (n, mv, rv)
             continue
         tol = reltol * max(1.0, abs(rv))
+        if fmt == "cif" and ".xyz" in n:
+            # P1 expansion folds positions into [0, 1)
+            dd = abs((Fraction(rv) - mv + Fraction(1, 2)) % 1 - Fraction(1, 2))
+            if dd > Fraction(1e-9):
+                return "%s: model %s, real %r (mod 1)" % (n, float(mv), rv)
+            continue
         m = re.match(r"atom(\d+)\.U(\d)(\d)$", n)
         if fmt == "pdffit" and m and stru is not None and not stru[int(m.group(1))].anisotropy and m.group(2, 3) != ("0", "0"):
             # an atom read as isotropic re-derives these terms from U11 and the cell
@@ -1125,6 +1317,9 @@ def run(ck):
     for ci, (fmt, spec, s, bad, info, rng_reason) in enumerate(results):
         if bad is None or rng_reason is not None:
             continue
+        if fmt in MODEL_FORMATS and "range=false" in model.get((ci, "repr", 0), ""):
+            stats[fmt]["outside_range"] = stats[fmt].get("outside_range", 0) + 1
+            continue          # outside the representable range according to the Lean range_f
         key, what = bad
         kd = known_defect(fmt, s)
         if kd:
@@ -1148,7 +1343,9 @@ def run(ck):
         for k, t in enumerate(info["texts"]):
             rp = model.get((ci, "repr", k), "")
             if "range=true" not in rp:
-                if rng_reason is None and k == 0 and "range=false" in rp:
+                if rng_reason is None and k == 0 and "range=false" in rp and fmt in LEAN_RANGE_ONLY:
+                    stats[fmt]["outside_range"] = stats[fmt].get("outside_range", 0) + 1
+                elif rng_reason is None and k == 0 and "range=false" in rp:
                     key = "tie:%s:range" % fmt
                     if key not in reported:
                         reported.add(key)
